@@ -104,7 +104,7 @@ def setup_host(wd, tag):
     return path, hostframe.load(path), hostframe.markers(path)['hit']
 
 
-def build(kind, base, line, cfg, via_wire, tp_id='tp', condition=None):
+def build(kind, base, line, cfg, via_wire, tp_id='tp', condition=None, broken_tail=False):
     from deep.api.tracepoint.tracepoint_config import MetricDefinition
     if via_wire:
         args = {k: str(v) for k, v in cfg.items() if k in ('fire_count', 'fire_period')}
@@ -125,6 +125,10 @@ def build(kind, base, line, cfg, via_wire, tp_id='tp', condition=None):
         config['log_msg'] = 'L'
     if kind == 'metric':
         config['metrics'] = [MetricDefinition('m', 'counter')]
+        if broken_tail:
+            # a second definition the action cannot work through (its labels are a mapping, not a list): the hit has
+            # acted for the first one all the same, and it counts
+            config['metrics'].append(MetricDefinition('m_unusable', 'counter', {'k': 'v'}))
     if kind == 'span':
         config['span'] = 'line'
     return direct_trigger(tp_id, base, line, {'snapshot': 'Snapshot', 'log': 'Log', 'metric': 'Metric',
@@ -180,7 +184,10 @@ def case_hist(seed, out, spec, wd):
     base = os.path.basename(path)
     use_cond = r.chance(0.3)
     flags = [r.chance(0.5) for _ in times] if use_cond else None
-    trig = build(kind, base, line, cfg, via_wire, condition='flag' if use_cond else None)
+    broken_tail = kind == 'metric' and not via_wire and r.chance(0.4)
+    if broken_tail:
+        out.count('actions_failing_half_way')
+    trig = build(kind, base, line, cfg, via_wire, condition='flag' if use_cond else None, broken_tail=broken_tail)
     rig = Rig(custom={}, host_dir=wd, plugins=[plugins.RecLogger(), plugins.RecMetrics(), plugins.RecSpans()])
     rig.install([trig])
     acted = []   # hit indexes at which the action acted
